@@ -23,7 +23,7 @@ def rule_jsonpath(ctx):
         if not (isinstance(pth.value, ast.Call) and norm(pth.value.func) == proc):
             continue
         seen += 1
-        cs = [(t, pol) for t, pol, _n in pth.conds if isinstance(t, ast.expr)]
+        cs = pth.decisions()
         good = False
         if len(cs) == 1 and isinstance(cs[0][0], ast.Compare) and len(cs[0][0].ops) == 1 and isinstance(cs[0][0].ops[0], (ast.Eq, ast.NotEq)) \
                 and cs[0][1] == isinstance(cs[0][0].ops[0], ast.Eq):
@@ -351,7 +351,7 @@ def rule_height_reply(ctx):
         if norm(pth.value) not in (reply, 'self._height'):
             ok, why = False, f'returns `{norm(pth.value)}`'
             break
-        if [c for c in pth.conds if isinstance(c[0], ast.expr)]:
+        if pth.decisions():
             ok, why = False, f'the update is conditional: {pth.cond_texts()}'
             break
     ctx.check(ok, 'C18.HEIGHTREPLY', ctx.key(f, None, 'the reply is cached and returned'),
